@@ -1,10 +1,16 @@
 use crate::report::{Cfg, Outcome};
 
 pub mod c01;
+pub mod c32;
+pub mod c33;
+pub mod c35;
 
 pub fn dispatch(cfg: &Cfg) -> Option<Outcome> {
     Some(match cfg.prop.as_str() {
         "C01" => c01::run(cfg),
+        "C32" => c32::run(cfg),
+        "C33" => c33::run(cfg),
+        "C35" => c35::run(cfg),
         _ => return None,
     })
 }
